@@ -240,6 +240,14 @@ def handleEv (d : DS) (ws : List String) : Outp :=
     let d := { d with tainted := true }
     if tok == "gone" then
       tryStep { d with mirror := d.mirror.erase k } (.tamper key none) "tamper"
+    else if (tok.splitOn " ").getLast? == some "samehashes" then
+      -- a data tile changed only outside what its Merkle leaves cover (chain fingerprints, the submitted pre-certificate,
+      -- bytes behind the last leaf): every leaf still hashes to its level-0 entry, and for the model — whose leaves ARE
+      -- what is hashed — it is the slice it was
+      let t' := " ".intercalate ((tok.splitOn " ").dropLast)
+      match d.mirror.get? k with
+      | some (_, o) => tryStep { d with mirror := d.mirror.insert k (t', o) } (.tamper key (some o)) "tamper-outside-leaf-hashes"
+      | none => .bad d s!"tamper of {k}: same leaf hashes as an object the model's store does not have"
     else
       -- an earlier content of the same key put back (an older signed checkpoint, a discarded bundle) is the abstract
       -- object it was; anything else is an opaque blob
